@@ -135,8 +135,9 @@ Fixpoint eops (s : str) (st : sst) : R str :=
       | SIn false =>
           if c =? 34
           then match r with
-               | 92 :: r2 => eops r2 SCont     (* quote, backslash, then white space, then a quote *)
-               | _ => Ok r
+               | b :: r2 => if b =? 92 then eops r2 SCont   (* quote, backslash, white space, quote *)
+                            else Ok r
+               | [] => Ok r
                end
           else eops r (SIn (c =? 92))
       | SCont => if isspace c then eops r SCont
@@ -154,8 +155,8 @@ Fixpoint scan_str (s : str) (cont : bool) (acc : str) : R (str * str) :=
             else if c =? 34 then scan_str r false acc else Unmod)
       else if c =? 34
       then match r with
-           | 92 :: r2 => scan_str r2 true acc
-           | _ => Ok (rev acc, r)
+           | b :: r2 => if b =? 92 then scan_str r2 true acc else Ok (rev acc, r)
+           | [] => Ok (rev acc, r)
            end
       else if c =? 92
       then match r with
